@@ -28,7 +28,7 @@ import tdgen
 
 THEOREMS = ["C05_block_scopes_end", "C05_locals_do_not_leak", "C05_out_of_scope_partial", "C05_unresolved_reported",
             "C05_resolution_values_partial", "C05_resolution_blocks_partial", "C05_goto_newest_entry",
-            "C05_reference_logged", "C05_declarations_stable", "C05_resolution_partial", "C05_resolution_workspace_partial", "C05_field_lookup_visited_set", "C05_subclass_visited_set"]
+            "C05_reference_logged", "C05_declarations_stable", "C05_resolution_partial", "C05_resolution_workspace_partial", "C05_resolution_field_access_partial", "C05_field_lookup_visited_set", "C05_subclass_visited_set"]
 TRUSTED = [
     "Coq 8.16.1 kernel (coqc; vm_compute only in the non-vacuity Examples); no axioms",
     "statement of the declarative resolver coq/model/ScopeSpec.v (read against the TableGen scoping rules; "
@@ -234,7 +234,8 @@ def run(ctx):
                 found = True
     # the declarative resolver ScopeSpec (extracted) on the programs of its fragment (one or several files): against
     # the generator's by-construction map (spec sanity) and against the model's use log (what C05_resolution states)
-    spec_stats = {"fragment_programs": 0, "multi_file": 0, "spec_vs_generator": 0, "spec_vs_model": 0}
+    spec_stats = {"fragment_programs": 0, "multi_file": 0, "well_scoped_for_the_spec": 0, "field_accesses": 0,
+                  "field_accesses_abstained": 0, "spec_vs_generator": 0, "spec_vs_model": 0}
     if exe:
         one = [(p, w, c) for p, w, c in zip(progs, wss, C) if not c.get("noncore") and not c.get("panic")]
         S = sl.model(exe, [c for _p, _w, c in one], [w for _p, w, _c in one], cmd="spec")
@@ -243,16 +244,25 @@ def run(ctx):
                 continue
             spec_stats["fragment_programs"] += 1
             spec_stats["multi_file"] += len(w["files"]) > 1
+            spec_stats["well_scoped_for_the_spec"] += bool(sp["well_scoped"])
             files = c["files"]
             got = {(files[e[0]], e[1], e[2]): (None if e[3] is None else (files[e[3][0]], e[3][1], e[3][2])) for e in sp["spec"]}
             exp = {(u[0], u[1], u[2]): p.decls[u[3]] for u in p.uses}
             exp.update({k: None for k in p.notfound})
-            if any(got.get(k, "missing") != v for k, v in exp.items()):
+            # field accesses `v.f`: the typed resolver ScopeSpecT knows the type of v only when it is written down
+            # (class-typed field / template argument, defvar of an identifier or class value, def name, class value);
+            # elsewhere it lists the use as unresolved (it ABSTAINS; C05_resolution does not speak about that program)
+            fsites = {(d["path"], d["lo"], d["hi"]) for d in p.sites if d["kind"] == "field-suffix"}
+            abstained = {k for k, v in exp.items() if k in fsites and v is not None and got.get(k, "missing") is None}
+            spec_stats["field_accesses"] += len([k for k in exp if k in fsites])
+            spec_stats["field_accesses_abstained"] += len(abstained)
+            if any(got.get(k, "missing") != v for k, v in exp.items() if k not in abstained):
                 spec_stats["spec_vs_generator"] += 1
-                fails.append({"kind": "spec-sanity", "file": "coq/model/ScopeSpec.v vs lib/tdgen.py", "workspace": w})
-            if [e for e in sp["spec"] if e[3] is not None] != sp["model"]:
+                fails.append({"kind": "spec-sanity", "file": "coq/model/ScopeSpecT.v vs lib/tdgen.py", "workspace": w})
+            abst = {(files.index(k[0]), k[1], k[2]) for k in abstained}
+            if [e for e in sp["spec"] if e[3] is not None] != [e for e in sp["model"] if (e[0], e[1], e[2]) not in abst]:
                 spec_stats["spec_vs_model"] += 1
-                fails.append({"kind": "spec-vs-model", "file": "coq/model/ScopeSpec.v vs coq/model/Indexer.v", "workspace": w})
+                fails.append({"kind": "spec-vs-model", "file": "coq/model/ScopeSpecT.v vs coq/model/Indexer.v", "workspace": w})
     ctx.cov["scope_spec"] = spec_stats
     ctx.cov["core_ast_from_texts_inside_coq"] = bridge_stats
     if broken_corr:
